@@ -14,7 +14,7 @@ from vf.taps.montap import montap
 
 LEVEL = "fault_enumeration"
 RULE = (
-    "fault enumeration: valid generated programs (a third of them with runs of statements moved into (nested) .include files) x 62 classes of definite error (invalid characters incl. NUL / DEL / non-ASCII, unterminated string, unknown keyword, "
+    "fault enumeration: valid generated programs (a third of them with runs of statements moved into (nested) .include files) x 69 classes of definite error (invalid characters incl. NUL / DEL / non-ASCII, unterminated string, unknown keyword, "
     "missing brace, a brace closed once too often, a macro defined only in a branch / loop that is not assembled or below its application, a byte that is no valid UTF-8 inside a source file (file entry points), a misspelled .map attribute, missing operand, undefined symbol in a sized operand / in data, undefined macro, too few macro arguments, undefined symbol in a macro argument the body never reads, in an unused `=` symbol, in `*=`, unsupported "
     "addressing mode, unsupported width, out-of-range branch, unmapped address, missing .include/.incbin/.table/.include_ips file) inserted "
     "at every statement position that is always expanded (thorough) or 6 positions (quick) x 5 entry points (string API, Program.assemble, "
@@ -42,10 +42,16 @@ FAULTS = {
     "undefined_macro": ("semantic", "nomacro_zz9(1)"),
     "too_few_macro_arguments": ("semantic", ".macro twoargs_zz9(pa, pb) {\n.db pa, pb\n}\ntwoargs_zz9(1)"),
     "unsupported_addressing_mode": ("semantic", "nop #1"),
+    "double_index_upper_inner_register": ("semantic", "lda (0x10,X),y"),
+    "double_index_all_upper": ("semantic", "LDA (0x10,X),Y"),
+    "double_index_y_upper": ("semantic", "eor (0x20,Y),Y"),
     "unsupported_width": ("semantic", "rep.w #0x1234"),
     "branch_out_of_range": ("semantic", "bra far_zz9\n.ascii '" + "x" * 200 + "'\nfar_zz9:"),
     "branch_plus_128": ("semantic", "bne near_zz9\n.ascii '" + "x" * 128 + "'\nnear_zz9:"),
     "branch_minus_129": ("semantic", "back_zz9:\n.ascii '" + "x" * 127 + "'\nbeq back_zz9"),
+    # a branch to the same place some whole banks further on (banks that share a layout): no displacement byte stands for 64 KiB
+    "branch_whole_banks_away": ("semantic", "here_zz9:\nbra here_zz9 + BANKSTEP"),
+    "branch_whole_banks_away_2": ("semantic", "here_zz9:\nnop\nbeq here_zz9 + BANKSTEP + BANKSTEP + 1"),
     "unmapped_address": ("semantic", "*=UNMAPPED\n.db 1"),
     "assign_over_undefined": ("semantic", "zq9 := undefined_zz9 + 1"),
     "loop_bound_undefined": ("semantic", ".for kq9 := 0, undefined_zz9 {\n.db kq9\n}"),
@@ -108,7 +114,7 @@ def plan(tier: str, seed: int) -> list[dict]:
 
 
 def fault_text(name: str, rom: str) -> str:
-    return FAULTS[name][1].replace("UNMAPPED", "0x008000" if rom == "high" else "0x700000").replace("LASTBANK", "0xFFFFFA" if rom == "high" else "0x6FFFFA")
+    return FAULTS[name][1].replace("BANKSTEP", "0x10000" if rom == "high" else "0x20000").replace("UNMAPPED", "0x008000" if rom == "high" else "0x700000").replace("LASTBANK", "0xFFFFFA" if rom == "high" else "0x6FFFFA")
 
 
 def positions(prog: list, syntax: bool) -> list[tuple[list, int]]:
